@@ -59,6 +59,24 @@ def gen_scene(rng, K, F, n_nodes, spread=400.0, step=6.0, size=8.0):
     return frames
 
 
+def _frame_numbers(rng, F, fired):
+    """Frame numbers handed to track(): usually 0..F-1, sometimes strided / irregular / offset (tracking every n-th
+    frame, a clip starting mid-video). The window is counted in tracked frames, so identity must not depend on them."""
+    if rng.random() >= 0.3:
+        return None
+    start = rng.choice([0, 0, 1, 7, 250])
+    if rng.random() < 0.6:
+        stride = rng.choice([2, 3, 5, 10])
+        out = [start + i * stride for i in range(F)]
+    else:
+        out, cur = [], start
+        for _ in range(F):
+            out.append(cur)
+            cur += rng.choice([1, 1, 2, 3, 6])
+    fired["strided_frame_idx"] = fired.get("strided_frame_idx", 0) + 1
+    return out
+
+
 def gen_plan(rng, index, tier):
     big = tier == "thorough"
     K = rng.choice([1, 1, 2, 2, 3, 3, 4, 5, 6])
@@ -140,8 +158,12 @@ def gen_plan(rng, index, tier):
             rng.shuffle(fr)
             fire("permute_detections")
         frames.append(fr)
-    return {"cfg": cfg, "n_nodes": n_nodes, "frames": frames, "K": K, "faults_fired": fired,
+    plan = {"cfg": cfg, "n_nodes": n_nodes, "frames": frames, "K": K, "faults_fired": fired,
             "two_trackers": rng.random() < 0.1}
+    fidx = _frame_numbers(rng, len(frames), fired)
+    if fidx:
+        plan["frame_idx"] = fidx
+    return plan
 
 
 def describe(plan):
@@ -152,6 +174,10 @@ def describe(plan):
 
 def shrink(plan):
     F = len(plan["frames"])
+    if plan.get("frame_idx"):
+        p = copy.deepcopy(plan)
+        p.pop("frame_idx")
+        yield p
     # drop suffix / prefix / single frames
     for cut in (F // 2, F - 1):
         if 1 <= cut < F:
